@@ -33,6 +33,7 @@ def shapes():
 
 
 CONTINUOUS = {'unit', 'neg', 'log', 'big'}
+LONG_SHAPES = {'mixed', 'neg', 'unit', 'cat'}
 
 
 def problem(shape, metrics=1):
@@ -74,6 +75,20 @@ def suggestion_record(sugg):
   return [{'name': k, 'v': fkey.value_record(v.value)} for k, v in sorted(sugg.parameters.items())]
 
 
+import contextlib
+
+
+@contextlib.contextmanager
+def shifted_clock(offset):
+  """Wall-clock time shifted: a seeded run must not depend on it."""
+  real = time.time
+  time.time = lambda: real() + offset
+  try:
+    yield
+  finally:
+    time.time = real
+
+
 def perturb_globals(rng):
   np.random.seed(rng.randrange(2 ** 31))
   random.seed(rng.random())
@@ -102,6 +117,8 @@ def run_session(algo, prob, sched, seed, restart=False, perturb=None, feed=None,
   from vizier import pyvizier as vz
   if perturb is not None:
     perturb_globals(perturb)
+    with shifted_clock(4321.5 + perturb.random() * 1000):
+      return run_session(algo, prob, sched, seed, restart=restart, feed=feed, record=record)
   try:
     d = algo['f'](prob, seed)
   except Exception as e:  # pylint: disable=broad-except
@@ -125,9 +142,9 @@ def run_session(algo, prob, sched, seed, restart=False, perturb=None, feed=None,
         next_id += 1
         active.append(t)
       states.append(state_digest(d, algo))
-    elif step in ('CF', 'CI'):
+    elif step in ('CF', 'CR', 'CI'):
       done = []
-      for t in active:
+      for t in (reversed(active) if step == 'CR' else active):
         k += 1
         if step == 'CI':
           t.complete(vz.Measurement(), infeasibility_reason='infeasible')
@@ -198,8 +215,17 @@ def collect(ctx, which):
         prob = problem(shape, algo.get('metrics', 1))
         pool = {'C13': with_r, 'C03': with_ci + scheds, 'C14': scheds}[which]
         chosen = rng.sample(pool, min(per, len(pool)))
-        for sched in chosen:
-          seed = rng.randrange(1, 10 ** 6)
+        # long sessions (concatenations of enumerated schedules with completions in between): evolutionary / swarm designers
+        # change regime only after a dozen or more completed trials
+        if shape in LONG_SHAPES:
+          for _ in range(1 if not ctx.thorough else 3):
+            parts = rng.sample(with_r if which == 'C13' else scheds, 4)
+            long = []
+            for part in parts:
+              long += list(part) + [rng.choice(['CF', 'CR'])]
+            chosen.append(tuple(long + ['S2']))
+        for k_s, sched in enumerate(chosen):
+          seed = 0 if k_s == 1 else rng.randrange(1, 10 ** 6)      # 0 is a seed like any other
           t0 = time.time()
           hist = []
           a, sa, ra = run_session(algo, prob, sched, seed, record=hist)
